@@ -256,6 +256,16 @@ class Gate(object):
     def __init__(self, get_sched):
         self.get_sched = get_sched
         self.write_yield = False      # exploration only: every bulk_write is a preemption point too
+        self.write_fault = None       # exploration only: (thread, n) - the n-th bulk_write of that thread raises exc (nothing was sent)
+        self.write_exc = None
+        self.nwrites = {}
+
+    def _fault(self):
+        if self.write_fault is not None:
+            name = current_name()
+            self.nwrites[name] = self.nwrites.get(name, 0) + 1
+            if (name, self.nwrites[name]) == tuple(self.write_fault):
+                raise self.write_exc('sending timed out, no data was sent (injected)')
 
     def _need(self, core):
         return not core.cur
@@ -269,6 +279,8 @@ class Gate(object):
         s = self.get_sched()
         if self.write_yield and s is not None and current_name() in s.th:
             s.boundary('write', lambda: True)
+        if s is not None and current_name() in s.th:
+            self._fault()
 
     async def before_read_async(self, core):
         s = self.get_sched()
@@ -279,3 +291,5 @@ class Gate(object):
         s = self.get_sched()
         if self.write_yield and s is not None and current_name() in s.th:
             await s.aboundary('write', lambda: True)
+        if s is not None and current_name() in s.th:
+            self._fault()
